@@ -1,6 +1,10 @@
 (* C04 — the index as the code maintains it: every operation of cache/cache_user.go and both loaders of
    cache/uhash_loader.go preserve the chain invariant, lookups are exact, and no walk runs out of fuel. *)
 From Verif Require Import Base.Common Base.TMap Gen.Consts_default Model.C04 Proofs.C04_chain.
+From Verif Require Gen.Consts_docker.
+
+Section Cfg.
+Context {K : consts} (HK : consts_ok K).
 
 (* ------------------------------------------------------------------ ids: case folding and the hash *)
 Lemma zlist_eqb_eq : forall a b, zlist_eqb a b = true <-> a = b.
@@ -196,14 +200,14 @@ Lemma add_wf s slot id : WF s -> in_range slot = true -> ~ on_chain s slot ->
 Proof.
   intros W Hr Hfree. unfold add_to_uhash. rewrite Hr. cbn [negb]. cbv zeta.
   set (h := uhash id). set (s1 := set_id s slot id).
-  destruct (WF_bucket s h W (uhash_ok id)) as [l0 [Hc [Hnd [Hrange [_ _]]]]].
-  assert (Hni : ~ In slot l0) by (intros Hin; apply Hfree; exists h, l0; split; [apply uhash_ok|auto]).
+  destruct (WF_bucket s h W (uhash_ok HK id)) as [l0 [Hc [Hnd [Hrange [_ _]]]]].
+  assert (Hni : ~ In slot l0) by (intros Hin; apply Hfree; exists h, l0; split; [apply (uhash_ok HK)|auto]).
   pose proof (range_len_bound_strict l0 slot Hnd Hrange Hr Hni) as Hlen.
   change (next s1) with (next s). change (tget (head s1) h) with (hd s h).
-  rewrite (add_walk_chain (next s) (hd s h) l0 Hc Hrange FUEL_MAXU false h Hlen).
+  rewrite (FUEL_MAXU_eq HK). rewrite (add_walk_chain (next s) (hd s h) l0 Hc Hrange (Z.to_nat MAXU) false h Hlen).
   assert (Hid1 : idf s1 slot = id) by (unfold idf, s1; cbn [set_id ids]; apply tget_tset_same).
   assert (Hoth1 : forall x, x <> slot -> idf s1 x = idf s x) by (intros x Hx; unfold idf, s1; cbn [set_id ids]; apply tget_tset_other; exact Hx).
-  destruct (link_state_wf s s1 slot h l0 W Hr Hfree (uhash_ok id) eq_refl eq_refl) as [W' [Hids [Hon [Hn Hl]]]];
+  destruct (link_state_wf s s1 slot h l0 W Hr Hfree (uhash_ok HK id) eq_refl eq_refl) as [W' [Hids [Hon [Hn Hl]]]];
     [rewrite Hid1; reflexivity|exact Hoth1|exact Hc|].
   exists (link_state s1 l0 h slot). split.
   - unfold link_state. destruct (tail_ptr l0 false h) as [isn p]. reflexivity.
@@ -228,16 +232,16 @@ Lemma remove_wf s slot : WF s -> in_range slot = true ->
 Proof.
   intros W Hr. unfold remove_from_uhash. rewrite Hr. cbn [negb]. cbv zeta.
   fold (idf s slot). set (h := uhash (idf s slot)).
-  destruct (WF_bucket s h W (uhash_ok _)) as [l0 [Hc [Hnd [Hrange [_ Hlen0]]]]].
+  destruct (WF_bucket s h W (uhash_ok HK _)) as [l0 [Hc [Hnd [Hrange [_ Hlen0]]]]].
   fold (hd s h).
   destruct (in_dec Z.eq_dec slot l0) as [Hin|Hni].
   - destruct (in_split_first slot l0 Hin) as [l1 [l2 [E Hni1]]]. subst l0.
     assert (Hr1 : forall x, In x l1 -> in_range x = true) by (intros x Hx; apply Hrange; apply in_or_app; left; exact Hx).
     assert (Hlen1 : (length l1 < FUEL_MAXU)%nat).
-    { unfold FUEL_MAXU. rewrite app_length in Hlen0. cbn [length] in Hlen0. lia. }
+    { rewrite (FUEL_MAXU_eq HK). rewrite app_length in Hlen0. cbn [length] in Hlen0. lia. }
     rewrite (rm_walk_found (next s) slot l1 (hd s h) l2 Hc Hni1 Hr1 FUEL_MAXU false h Hlen1).
     rewrite Z.eqb_refl.
-    destruct (WFf_unlink (hd s) (nx s) (idf s) slot l1 l2 W Hc) as [W' Hon].
+    destruct (WFf_unlink HK (hd s) (nx s) (idf s) slot l1 l2 W Hc) as [W' Hon].
     set (s' := set_link s (fst (tail_ptr l1 false h)) (snd (tail_ptr l1 false h)) (tget (next s) slot)).
     assert (Ehd : forall x, (if match l1 with [] => true | _ => false end then upd (hd s) (uhash (idf s slot)) (nx s slot) else hd s) x = hd s' x).
     { intros x. subst s'. unfold hd, nx. destruct l1 as [|a l1]; cbn [tail_ptr fst snd set_link set_next set_head head].
@@ -253,7 +257,7 @@ Proof.
     + intros x. unfold on_chain. rewrite <- Hon.
     split; [apply on_chainf_ext; intros y; symmetry; [apply Ehd|apply Enx]|apply on_chainf_ext; intros y; [apply Ehd|apply Enx]].
     + subst s'. destruct (fst (tail_ptr l1 false h)); split; reflexivity.
-  - assert (Hlen : (length l0 < FUEL_MAXU)%nat) by (apply range_len_bound_strict with (slot := slot); assumption).
+  - assert (Hlen : (length l0 < FUEL_MAXU)%nat) by (rewrite (FUEL_MAXU_eq HK); apply range_len_bound_strict with (slot := slot); assumption).
     rewrite (rm_walk_absent (next s) slot (hd s h) l0 Hc Hni Hrange FUEL_MAXU false h Hlen).
     apply in_range_spec in Hr. destruct (Z.eqb_spec (-1) slot); [lia|]. destruct (tail_ptr l0 false h) as [isn0 p0].
     exists s. split; [reflexivity|]. split; [exact W|]. split; [reflexivity|]. split; [|split; reflexivity].
@@ -288,9 +292,9 @@ Lemma do_search_spec s q : WF s -> exists l, chain (nx s) (hd s (uhash q)) l /\
   (forall x, In x l -> in_range x = true /\ uhash (idf s x) = uhash q) /\
   do_search_user_raw s q = Ok (match find (fun x => id_eq_ci q (idf s x)) l with Some x => x + 1 | None => 0 end).
 Proof.
-  intros W. destruct (WF_bucket s (uhash q) W (uhash_ok q)) as [l [Hc [Hnd [Hrange [Hh Hlen]]]]].
+  intros W. destruct (WF_bucket s (uhash q) W (uhash_ok HK q)) as [l [Hc [Hnd [Hrange [Hh Hlen]]]]].
   exists l. split; [exact Hc|]. split; [intros x Hin; split; auto|].
-  unfold do_search_user_raw. fold (hd s (uhash q)). apply search_walk_chain; assumption.
+  unfold do_search_user_raw. fold (hd s (uhash q)). rewrite (FUEL_MAXU_eq HK). apply search_walk_chain; assumption.
 Qed.
 
 Lemma find_unique {A} (p : A -> bool) x : forall l, In x l -> p x = true -> (forall y, In y l -> p y = true -> y = x) -> find p l = Some x.
@@ -308,7 +312,7 @@ Proof.
   intros W E Hv. destruct (do_search_spec s q W) as [l [Hc [Hx Es]]]. rewrite Es in E. inversion E as [Ev]. clear E.
   destruct (find (fun x => id_eq_ci q (idf s x)) l) as [x|] eqn:F; [|congruence].
   apply find_some in F. destruct F as [Hin Hp]. replace (x + 1 - 1) with x by lia.
-  split; [apply (Hx x Hin)|]. split; [|exact Hp]. exists (uhash q), l. split; [apply uhash_ok|auto].
+  split; [apply (Hx x Hin)|]. split; [|exact Hp]. exists (uhash q), l. split; [apply (uhash_ok HK)|auto].
 Qed.
 
 (* distinct up to case: no other indexed slot holds x's id in any letter case *)
@@ -322,7 +326,7 @@ Proof.
   destruct (on_chain_own_bucket s x W Hon) as [l' [Hc' Hin']].
   rewrite <- (id_eq_ci_hash q (idf s x) Hq) in Hc'. rewrite (chain_fun _ _ _ Hc' _ Hc) in Hin'.
   rewrite (find_unique _ x l Hin' Hq); [reflexivity|].
-  intros y Hy Hpy. apply Hu; [exists (uhash q), l; split; [apply uhash_ok|auto]|].
+  intros y Hy Hpy. apply Hu; [exists (uhash q), l; split; [apply (uhash_ok HK)|auto]|].
   apply id_eq_ci_trans with (b := q); [apply id_eq_ci_sym; exact Hpy|exact Hq].
 Qed.
 
@@ -332,7 +336,7 @@ Proof.
   intros W Hno. destruct (do_search_spec s q W) as [l [Hc [Hx Es]]]. rewrite Es.
   destruct (find (fun x => id_eq_ci q (idf s x)) l) as [x|] eqn:F; [|reflexivity].
   apply find_some in F. destruct F as [Hin Hp]. rewrite Hno in Hp; [discriminate|].
-  exists (uhash q), l. split; [apply uhash_ok|auto].
+  exists (uhash q), l. split; [apply (uhash_ok HK)|auto].
 Qed.
 
 (* SearchUserRaw: the empty id is answered 0 without a walk, everything else is DoSearchUserRaw *)
@@ -341,8 +345,7 @@ Proof. intros H. unfold search_user_raw. destruct (Z.eqb_spec (nth 0 q 0) 0); [c
 Lemma search_user_raw_empty s q : nth 0 q 0 = 0 -> search_user_raw s q = Ok 0.
 Proof. intros H. unfold search_user_raw. rewrite H. reflexivity. Qed.
 
-Lemma MAXU_pos : 0 < MAXU.
-Proof. reflexivity. Qed.
+Local Notation MAXU_pos := (MAXU_pos HK).
 
 (* termination: under WF no walk crashes or runs out of fuel *)
 Lemma search_total s q : WF s -> exists v, search_user_raw s q = Ok v /\ 0 <= v <= MAXU.
@@ -361,7 +364,7 @@ Proof. unfold lenZ. cbn [length]. lia. Qed.
 Definition fresh_from (s : st) (i : Z) : Prop := forall x, i <= x -> ~ on_chain s x.
 
 Lemma fuel_loader_ok (l : list Z) : (length l <= Z.to_nat MAXU)%nat -> (length l < FUEL_LOADER)%nat.
-Proof. unfold FUEL_LOADER. lia. Qed.
+Proof. rewrite (FUEL_LOADER_eq HK). lia. Qed.
 
 Lemma userec_add_cold s cnt i id : WF s -> in_range i = true -> ~ on_chain s i ->
   exists s' cnt', userec_add s cnt i id false = Ok (s', cnt') /\ WF s' /\ (forall x, on_chain s' x -> on_chain s x \/ x = i).
@@ -371,13 +374,13 @@ Proof.
   - eexists. eexists. split; [reflexivity|]. split; [exact W|]. intros x Hx. left. exact Hx.
   - rewrite Hr. cbn [negb orb].
     set (h := uhash id). set (s1 := set_id s i id).
-    destruct (WF_bucket s h W (uhash_ok id)) as [l0 [Hc [Hnd [Hrange [_ Hlen]]]]].
+    destruct (WF_bucket s h W (uhash_ok HK id)) as [l0 [Hc [Hnd [Hrange [_ Hlen]]]]].
     change (next s1) with (next s). change (tget (head s1) h) with (hd s h).
     rewrite (load_walk_chain (next s) false i (hd s h) l0 Hc Hrange FUEL_LOADER false h (fuel_loader_ok l0 Hlen)).
     cbn [andb].
     assert (Hid1 : idf s1 i = id) by (unfold idf, s1; cbn [set_id ids]; apply tget_tset_same).
     assert (Hoth1 : forall x, x <> i -> idf s1 x = idf s x) by (intros x Hx; unfold idf, s1; cbn [set_id ids]; apply tget_tset_other; exact Hx).
-    destruct (link_state_wf s s1 i h l0 W Hr Hfree (uhash_ok id) eq_refl eq_refl) as [W' [_ [Hon _]]];
+    destruct (link_state_wf s s1 i h l0 W Hr Hfree (uhash_ok HK id) eq_refl eq_refl) as [W' [_ [Hon _]]];
       [rewrite Hid1; reflexivity|exact Hoth1|exact Hc|].
     exists (link_state s1 l0 h i). eexists. split.
     + unfold link_state. destruct (tail_ptr l0 false h) as [isn p]. reflexivity.
@@ -402,8 +405,7 @@ Proof.
     + exists s'. split; [exact E'|]. split; [exact W'|]. destruct Hns. split; congruence.
 Qed.
 
-Lemma HASHN_pos : 0 < HASHN.
-Proof. reflexivity. Qed.
+Local Notation HASHN_pos := (HASHN_pos HK).
 
 (* fillUHash(false) from ANY state, garbage included *)
 Lemma fill_cold_wf s recs : lenZ recs <= MAXU ->
@@ -429,63 +431,117 @@ Proof.
   eexists. split; [reflexivity|]. split; [exact W1|]. split; [exact Hn|reflexivity].
 Qed.
 
-(* ... and the index it builds is exactly the file's: record k sits in slot k, on a chain, and nothing else is indexed
-   (MAX_USERS <= PRE_ALLOCATED_USERS: no record is skipped by the free-slot cap) *)
-Lemma MAXU_le_PREALLOC : MAXU <= PREALLOC.
-Proof. vm_compute. discriminate. Qed.
+(* ... and the index it builds is the file's. The loader's cap: a record WITHOUT a valid id (a free slot) is filed only while at most PRE_ALLOCATED_USERS
+   such records have been seen; a record WITH a valid id is always filed. [filed cnt recs] says, record by record, whether the loader files it when cnt
+   records without a valid id precede the list. *)
+Definition skips (cnt : Z) (id : list Z) : bool := negb (is_valid_id id) && (PREALLOC <? cnt + 1).
+Definition cnt_after (cnt : Z) (id : list Z) : Z := if is_valid_id id then cnt else cnt + 1.
+Fixpoint filed (cnt : Z) (recs : list (list Z)) : list bool :=
+  match recs with [] => [] | id :: r => negb (skips cnt id) :: filed (cnt_after cnt id) r end.
 
-Lemma userec_add_cold_exact s cnt i id : WF s -> in_range i = true -> ~ on_chain s i -> 0 <= cnt <= i ->
-  exists s' cnt', userec_add s cnt i id false = Ok (s', cnt') /\ WF s' /\ idf s' i = id /\ (forall x, x <> i -> idf s' x = idf s x) /\
-    (forall x, on_chain s' x <-> on_chain s x \/ x = i) /\ 0 <= cnt' <= i + 1 /\ number s' = number s /\ loaded s' = loaded s.
+Lemma userec_add_cond cnt id :
+  negb (is_valid_id id) && (PREALLOC <? (if is_valid_id id then cnt else cnt + 1)) = skips cnt id.
+Proof. unfold skips. destruct (is_valid_id id); reflexivity. Qed.
+
+Lemma userec_add_skip s cnt i id onfly : skips cnt id = true -> userec_add s cnt i id onfly = Ok (s, cnt_after cnt id).
+Proof. intros H. unfold userec_add. cbv zeta. rewrite userec_add_cond, H. reflexivity. Qed.
+
+(* a record with a valid id is filed whatever precedes it *)
+Lemma filed_valid : forall recs cnt k id, nth_error recs k = Some id -> is_valid_id id = true -> nth k (filed cnt recs) false = true.
 Proof.
-  intros W Hr Hfree Hcnt. unfold userec_add. cbv zeta.
-  pose proof Hr as Hr'. apply in_range_spec in Hr'. pose proof MAXU_le_PREALLOC as HP.
-  assert (Hc1 : 0 <= (if is_valid_id id then cnt else cnt + 1) <= i + 1) by (destruct (is_valid_id id); lia).
-  destruct (Z.ltb_spec PREALLOC (if is_valid_id id then cnt else cnt + 1)) as [Hbad|_]; [lia|]. rewrite andb_false_r.
+  induction recs as [|a r IH]; intros cnt [|k] id E Hv; cbn [nth_error] in E; try discriminate; cbn [filed nth].
+  - inversion E; subst a. unfold skips. rewrite Hv. reflexivity.
+  - eapply IH; eassumption.
+Qed.
+(* no record is skipped while the cap cannot have been reached *)
+Lemma filed_all_small : forall recs cnt k, cnt + lenZ recs <= PREALLOC -> (k < length recs)%nat -> nth k (filed cnt recs) false = true.
+Proof.
+  induction recs as [|a r IH]; intros cnt k Hle Hk; cbn [length] in Hk; [lia|]. rewrite lenZ_cons in Hle.
+  assert (Hl0 : 0 <= lenZ r) by (unfold lenZ; lia).
+  destruct k as [|k]; cbn [filed nth].
+  - unfold skips. destruct (Z.ltb_spec PREALLOC (cnt + 1)); [lia|]. rewrite andb_false_r. reflexivity.
+  - apply IH; [|lia]. unfold cnt_after. destruct (is_valid_id a); lia.
+Qed.
+(* a record that is not filed has no valid id and more than PRE_ALLOCATED_USERS records without one precede or are it *)
+Lemma not_filed_invalid : forall recs cnt k id, nth_error recs k = Some id -> nth k (filed cnt recs) false = false -> is_valid_id id = false.
+Proof.
+  intros recs cnt k id E Hf. destruct (is_valid_id id) eqn:Hv; [|reflexivity]. rewrite (filed_valid recs cnt k id E Hv) in Hf. discriminate.
+Qed.
+
+Lemma userec_add_cold_exact s cnt i id : WF s -> in_range i = true -> ~ on_chain s i -> skips cnt id = false ->
+  exists s', userec_add s cnt i id false = Ok (s', cnt_after cnt id) /\ WF s' /\ idf s' i = id /\ (forall x, x <> i -> idf s' x = idf s x) /\
+    (forall x, on_chain s' x <-> on_chain s x \/ x = i) /\ number s' = number s /\ loaded s' = loaded s.
+Proof.
+  intros W Hr Hfree Hsk. unfold userec_add. cbv zeta. rewrite userec_add_cond, Hsk.
   rewrite Hr. cbn [negb orb].
   set (h := uhash id). set (s1 := set_id s i id).
-  destruct (WF_bucket s h W (uhash_ok id)) as [l0 [Hc [Hnd [Hrange [_ Hlen]]]]].
+  destruct (WF_bucket s h W (uhash_ok HK id)) as [l0 [Hc [Hnd [Hrange [_ Hlen]]]]].
   change (next s1) with (next s). change (tget (head s1) h) with (hd s h).
   rewrite (load_walk_chain (next s) false i (hd s h) l0 Hc Hrange FUEL_LOADER false h (fuel_loader_ok l0 Hlen)).
   cbn [andb].
   assert (Hid1 : idf s1 i = id) by (unfold idf, s1; cbn [set_id ids]; apply tget_tset_same).
   assert (Hoth1 : forall x, x <> i -> idf s1 x = idf s x) by (intros x Hx; unfold idf, s1; cbn [set_id ids]; apply tget_tset_other; exact Hx).
-  destruct (link_state_wf s s1 i h l0 W Hr Hfree (uhash_ok id) eq_refl eq_refl) as [W' [Hids [Hon [Hn Hl]]]];
+  destruct (link_state_wf s s1 i h l0 W Hr Hfree (uhash_ok HK id) eq_refl eq_refl) as [W' [Hids [Hon [Hn Hl]]]];
     [rewrite Hid1; reflexivity|exact Hoth1|exact Hc|].
-  exists (link_state s1 l0 h i). eexists. split.
-  - unfold link_state. destruct (tail_ptr l0 false h) as [isn p]. reflexivity.
+  exists (link_state s1 l0 h i). split.
+  - unfold link_state, cnt_after. destruct (tail_ptr l0 false h) as [isn p]. reflexivity.
   - split; [exact W'|]. split; [rewrite Hids; exact Hid1|]. split; [intros x Hx; rewrite Hids; apply Hoth1; exact Hx|].
-    split; [exact Hon|]. split; [exact Hc1|]. split; assumption.
+    split; [exact Hon|]. split; assumption.
 Qed.
 
-Lemma fill_records_cold_exact : forall recs s cnt i, WF s -> 0 <= i -> i + lenZ recs <= MAXU -> fresh_from s i -> 0 <= cnt <= i ->
+Lemma fill_records_cold_exact : forall recs s cnt i, WF s -> 0 <= i -> i + lenZ recs <= MAXU -> fresh_from s i ->
   exists s', fill_records s cnt i recs false = Ok s' /\ WF s' /\
-    (forall k id, nth_error recs k = Some id -> idf s' (i + Z.of_nat k) = id) /\
-    (forall x, ~ (i <= x < i + lenZ recs) -> idf s' x = idf s x) /\
-    (forall x, on_chain s' x <-> on_chain s x \/ i <= x < i + lenZ recs) /\ number s' = number s /\ loaded s' = loaded s.
+    (forall k id, nth_error recs k = Some id -> nth k (filed cnt recs) false = true -> idf s' (i + Z.of_nat k) = id) /\
+    (forall x, (forall k, x = i + Z.of_nat k -> nth k (filed cnt recs) false = false) -> idf s' x = idf s x) /\
+    (forall x, on_chain s' x <-> on_chain s x \/ exists k, x = i + Z.of_nat k /\ nth k (filed cnt recs) false = true) /\
+    number s' = number s /\ loaded s' = loaded s.
 Proof.
-  induction recs as [|id r IH]; intros s cnt i W Hi Hlen Hfresh Hcnt; cbn [fill_records].
+  induction recs as [|id r IH]; intros s cnt i W Hi Hlen Hfresh; cbn [fill_records filed].
   - exists s. split; [reflexivity|]. split; [exact W|]. split; [intros [|k] id0 E; discriminate|]. split; [reflexivity|].
-    split; [|auto]. intros x. unfold lenZ; cbn [length]. split; [auto|]. intros [H|H]; [exact H|lia].
+    split; [|auto]. intros x. split; [auto|]. intros [H|[k [_ H]]]; [exact H|]. destruct k; discriminate.
   - rewrite lenZ_cons in Hlen. assert (Hl0 : 0 <= lenZ r) by (unfold lenZ; lia).
     assert (Hr : in_range i = true) by (apply in_range_spec; lia).
-    destruct (userec_add_cold_exact s cnt i id W Hr (Hfresh i (Z.le_refl i)) Hcnt) as [s1 [cnt1 [E [W1 [Hid1 [Hoth1 [Hon1 [Hc1 [Hn1 Hld1]]]]]]]]]. rewrite E.
-    destruct (IH s1 cnt1 (i + 1) W1) as [s' [E' [W' [Hids [Hrest [Hon' [Hn Hl]]]]]]]; [lia|lia| |lia|].
-    + intros x Hx Hon. apply Hon1 in Hon. destruct Hon as [H|H]; [apply (Hfresh x); [lia|exact H]|lia].
-    + exists s'. split; [exact E'|]. split; [exact W'|]. rewrite lenZ_cons. split; [|split; [|split; [|split; congruence]]].
-      * intros [|k] id0 Ek; cbn [nth_error] in Ek.
-        -- inversion Ek; subst id0. rewrite Z.add_0_r. rewrite Hrest by lia. exact Hid1.
-        -- replace (i + Z.of_nat (S k)) with (i + 1 + Z.of_nat k) by lia. apply Hids. exact Ek.
-      * intros x Hx. rewrite Hrest by lia. apply Hoth1. lia.
-      * intros x. rewrite Hon', Hon1. split; [intros [[H|H]|H]; [left; exact H|right; lia|right; lia]|].
-        intros [H|H]; [left; left; exact H|]. destruct (Z.eq_dec x i) as [->|Hne]; [left; right; reflexivity|right; lia].
+    assert (Hstep : exists s1, userec_add s cnt i id false = Ok (s1, cnt_after cnt id) /\ WF s1 /\
+              (skips cnt id = false -> idf s1 i = id) /\ (forall x, x <> i \/ skips cnt id = true -> idf s1 x = idf s x) /\
+              (forall x, on_chain s1 x <-> on_chain s x \/ (x = i /\ skips cnt id = false)) /\ number s1 = number s /\ loaded s1 = loaded s).
+    { destruct (skips cnt id) eqn:Hsk.
+      - exists s. split; [apply userec_add_skip; exact Hsk|]. split; [exact W|]. split; [discriminate|]. split; [reflexivity|].
+        split; [|auto]. intros x. split; [auto|]. intros [H|[_ H]]; [exact H|discriminate].
+      - destruct (userec_add_cold_exact s cnt i id W Hr (Hfresh i (Z.le_refl i)) Hsk) as [s1 [E [W1 [Hid1 [Hoth1 [Hon1 [Hn1 Hld1]]]]]]].
+        exists s1. split; [exact E|]. split; [exact W1|]. split; [intros _; exact Hid1|].
+        split; [intros x [Hx|Hx]; [apply Hoth1; exact Hx|discriminate]|].
+        split; [|auto]. intros x. rewrite Hon1. split; [intros [H|H]; [left; exact H|right; auto]|intros [H|[H _]]; auto]. }
+    destruct Hstep as [s1 [E [W1 [Hid1 [Hoth1 [Hon1 [Hn1 Hld1]]]]]]]. rewrite E.
+    destruct (IH s1 (cnt_after cnt id) (i + 1) W1) as [s' [E' [W' [Hids [Hrest [Hon' [Hn Hl]]]]]]]; [lia|lia| |].
+    + intros x Hx Hon. apply Hon1 in Hon. destruct Hon as [H|[H _]]; [apply (Hfresh x); [lia|exact H]|lia].
+    + exists s'. split; [exact E'|]. split; [exact W'|]. split; [|split; [|split; [|split; congruence]]].
+      * intros [|k] id0 Ek Hf; cbn [nth_error] in Ek; cbn [nth] in Hf.
+        -- inversion Ek; subst id0. rewrite Z.add_0_r. rewrite Hrest.
+           ++ apply Hid1. destruct (skips cnt id); [discriminate|reflexivity].
+           ++ intros k Hk. lia.
+        -- replace (i + Z.of_nat (S k)) with (i + 1 + Z.of_nat k) by lia. apply Hids; assumption.
+      * intros x Hx. rewrite Hrest.
+        -- apply Hoth1. destruct (Z.eq_dec x i) as [->|Hne]; [right|left; exact Hne].
+           specialize (Hx 0%nat). cbn [nth] in Hx. rewrite Z.add_0_r in Hx. specialize (Hx eq_refl). destruct (skips cnt id); [reflexivity|discriminate].
+        -- intros k Hk. specialize (Hx (S k)). cbn [nth] in Hx. apply Hx. lia.
+      * intros x. rewrite Hon', Hon1. split.
+        -- intros [[H|[H1 H2]]|[k [Hk Hf]]]; [left; exact H| |].
+           ++ right. exists 0%nat. cbn [nth]. rewrite H2. split; [lia|reflexivity].
+           ++ right. exists (S k). cbn [nth]. split; [lia|exact Hf].
+        -- intros [H|[[|k] [Hk Hf]]]; try (cbn [nth] in Hf).
+           ++ left. left. exact H.
+           ++ left. right. split; [lia|]. destruct (skips cnt id); [discriminate|reflexivity].
+           ++ right. exists k. split; [lia|exact Hf].
 Qed.
 
-Lemma cold_load_exact s0 recs : lenZ recs <= MAXU ->
+(* the cold load in general: exactly the filed records are stored and indexed - every record with a valid id among them, wherever it is in the file and
+   however many free records precede it - and nothing else *)
+Lemma cold_load_general s0 recs : lenZ recs <= MAXU ->
   exists s', load_uhash (unload s0) recs = Ok s' /\ WF s' /\ number s' = lenZ recs /\ loaded s' = 1 /\
-    (forall k id, nth_error recs k = Some id -> idf s' (Z.of_nat k) = id) /\
-    (forall x, ~ (0 <= x < lenZ recs) -> idf s' x = idf s0 x) /\
-    (forall x, on_chain s' x <-> 0 <= x < lenZ recs).
+    (forall k id, nth_error recs k = Some id -> nth k (filed 0 recs) false = true -> idf s' (Z.of_nat k) = id /\ on_chain s' (Z.of_nat k)) /\
+    (forall k id, nth_error recs k = Some id -> is_valid_id id = true -> idf s' (Z.of_nat k) = id /\ on_chain s' (Z.of_nat k)) /\
+    (forall x, on_chain s' x -> exists k, x = Z.of_nat k /\ (k < length recs)%nat /\ nth k (filed 0 recs) false = true) /\
+    (forall x, (forall k, x = Z.of_nat k -> nth k (filed 0 recs) false = false) -> idf s' x = idf s0 x).
 Proof.
   intros Hlen. unfold load_uhash.
   change (number (unload s0)) with 0. change (loaded (unload s0)) with 0. cbn [Z.eqb andb].
@@ -496,11 +552,39 @@ Proof.
   { intros h Hh. exists []. rewrite Hd0. split; [constructor|]. split; [constructor|]. intros x []. }
   assert (N0 : forall x, ~ on_chain s1 x).
   { intros x [h [l [Hh [Hc Hin]]]]. rewrite Hd0 in Hc. inversion Hc; subst; [destruct Hin|congruence]. }
-  destruct (fill_records_cold_exact recs s1 0 0 W0 (Z.le_refl 0)) as [s2 [E [W2 [Hids [Hrest [Hon [Hn Hl]]]]]]]; [lia|intros x _; apply N0|lia|].
+  destruct (fill_records_cold_exact recs s1 0 0 W0 (Z.le_refl 0)) as [s2 [E [W2 [Hids [Hrest [Hon [Hn Hl]]]]]]]; [lia|intros x _; apply N0|].
   rewrite E. eexists. split; [reflexivity|]. split; [exact W2|]. split; [reflexivity|]. split; [reflexivity|].
-  split; [intros k id Ek; apply (Hids k id Ek)|]. split.
-  - intros x Hx. change (idf s2 x = idf s1 x). apply Hrest. exact Hx.
-  - intros x. change (on_chain s2 x <-> 0 <= x < lenZ recs). rewrite Hon. split; [intros [H|H]; [destruct (N0 x H)|exact H]|intros H; right; exact H].
+  assert (Hfiled : forall k id, nth_error recs k = Some id -> nth k (filed 0 recs) false = true -> idf s2 (Z.of_nat k) = id /\ on_chain s2 (Z.of_nat k)).
+  { intros k id Ek Hf. split; [apply (Hids k id Ek Hf)|]. apply Hon. right. exists k. split; [lia|exact Hf]. }
+  split; [exact Hfiled|]. split; [intros k id Ek Hv; apply (Hfiled k id Ek); eapply filed_valid; eassumption|]. split.
+  - intros x Hx. change (on_chain s2 x) in Hx. apply Hon in Hx. destruct Hx as [Hx|[k [Hk Hf]]]; [destruct (N0 x Hx)|].
+    exists k. split; [lia|]. split; [|exact Hf].
+    destruct (Nat.lt_ge_cases k (length recs)) as [H|H]; [exact H|]. rewrite nth_overflow in Hf; [discriminate|].
+    clear - H. revert H. generalize 0. revert k. induction recs as [|a r IH]; intros k c H; cbn [filed length] in *; [lia|].
+    destruct k; [lia|]. specialize (IH k (cnt_after c a)). lia.
+  - intros x Hx. change (idf s2 x = idf s1 x). apply Hrest. intros k Hk. apply Hx. lia.
+Qed.
+
+(* when the file has at most PRE_ALLOCATED_USERS records (in particular in every configuration with MAX_USERS <= PRE_ALLOCATED_USERS, the default build)
+   nothing is skipped: record k sits in slot k, on a chain, and nothing else is indexed *)
+Lemma cold_load_exact s0 recs : lenZ recs <= MAXU -> lenZ recs <= PREALLOC ->
+  exists s', load_uhash (unload s0) recs = Ok s' /\ WF s' /\ number s' = lenZ recs /\ loaded s' = 1 /\
+    (forall k id, nth_error recs k = Some id -> idf s' (Z.of_nat k) = id) /\
+    (forall x, ~ (0 <= x < lenZ recs) -> idf s' x = idf s0 x) /\
+    (forall x, on_chain s' x <-> 0 <= x < lenZ recs).
+Proof.
+  intros Hlen Hcap. destruct (cold_load_general s0 recs Hlen) as [s' [E [W [Hn [Hl [Hf [_ [Hon Hrest]]]]]]]].
+  assert (Hall : forall k, (k < length recs)%nat -> nth k (filed 0 recs) false = true) by (intros k Hk; apply filed_all_small; [lia|exact Hk]).
+  exists s'. split; [exact E|]. split; [exact W|]. split; [exact Hn|]. split; [exact Hl|]. split; [|split].
+  - intros k id Ek. apply (Hf k id Ek). apply Hall. apply nth_error_Some. congruence.
+  - intros x Hx. apply Hrest. intros k Hk. apply nth_overflow.
+    assert (length (filed 0 recs) = length recs) by (clear; generalize 0; induction recs as [|a r IH]; intros c; cbn [filed length]; [reflexivity|rewrite IH; reflexivity]).
+    unfold lenZ in Hx. lia.
+  - intros x. split.
+    + intros Hx. destruct (Hon x Hx) as [k [-> [Hk _]]]. unfold lenZ. lia.
+    + intros Hx. unfold lenZ in Hx. destruct (nth_error recs (Z.to_nat x)) as [id|] eqn:Ek.
+      * replace x with (Z.of_nat (Z.to_nat x)) by lia. apply (Hf _ id Ek). apply Hall. lia.
+      * apply nth_error_None in Ek. lia.
 Qed.
 
 (* ------------------------------------------------------------------ reload into a populated segment *)
@@ -519,46 +603,53 @@ Qed.
 
 Lemma userec_add_onfly s cnt i id : WF s -> in_range i = true -> cstr_eq id (idf s i) = true ->
   exists s' cnt', userec_add s cnt i id true = Ok (s', cnt') /\ WF s' /\ (forall x, idf s' x = idf s x) /\
-    (forall x, on_chain s x -> on_chain s' x) /\ number s' = number s /\ loaded s' = loaded s.
+    (forall x, on_chain s x -> on_chain s' x) /\ number s' = number s /\ loaded s' = loaded s /\
+    cnt' = cnt_after cnt id /\ (skips cnt id = false -> on_chain s' i).
 Proof.
-  intros W Hr Heq. unfold userec_add. cbv zeta.
-  destruct (negb (is_valid_id id) && (PREALLOC <? (if is_valid_id id then cnt else cnt + 1))).
-  - eexists. eexists. split; [reflexivity|]. split; [exact W|]. auto.
+  intros W Hr Heq. unfold userec_add. cbv zeta. rewrite userec_add_cond. fold (cnt_after cnt id).
+  destruct (skips cnt id) eqn:Hsk.
+  - eexists. eexists. split; [reflexivity|]. split; [exact W|]. repeat split; auto. discriminate.
   - rewrite Hr. cbn [negb orb]. fold (idf s i). rewrite Heq. cbn [negb].
     assert (Eh : uhash id = uhash (idf s i)) by (apply id_eq_ci_hash; apply cstr_eq_ci; exact Heq).
     set (h := uhash id) in *.
-    destruct (WF_bucket s h W (uhash_ok id)) as [l0 [Hc [Hnd [Hrange [_ Hlen]]]]].
+    destruct (WF_bucket s h W (uhash_ok HK id)) as [l0 [Hc [Hnd [Hrange [_ Hlen]]]]].
     fold (hd s h).
     rewrite (load_walk_chain (next s) true i (hd s h) l0 Hc Hrange FUEL_LOADER false h (fuel_loader_ok l0 Hlen)).
     cbn [andb]. destruct (existsb (fun x => x =? i) l0) eqn:Ex.
-    + eexists. eexists. split; [reflexivity|]. split; [exact W|]. auto.
+    + eexists. eexists. split; [reflexivity|]. split; [exact W|]. repeat split; auto. intros _.
+      apply existsb_exists in Ex. destruct Ex as [x [Hin Hx]]. apply Z.eqb_eq in Hx. subst x. exists h, l0. split; [apply (uhash_ok HK)|auto].
     + assert (Hni : ~ In i l0).
       { intros Hin. assert (existsb (fun x => x =? i) l0 = true) by (apply existsb_exists; exists i; split; [exact Hin|apply Z.eqb_refl]). congruence. }
       assert (Hfree : ~ on_chain s i).
       { intros Hon. destruct (on_chain_own_bucket s i W Hon) as [l [Hc' Hin']]. rewrite <- Eh in Hc'.
         rewrite (chain_fun _ _ _ Hc' _ Hc) in Hin'. contradiction. }
-      destruct (link_state_wf s s i h l0 W Hr Hfree (uhash_ok id) eq_refl eq_refl) as [W' [Hids [Hon [Hn Hl]]]];
+      destruct (link_state_wf s s i h l0 W Hr Hfree (uhash_ok HK id) eq_refl eq_refl) as [W' [Hids [Hon [Hn Hl]]]];
         [symmetry; exact Eh|reflexivity|exact Hc|].
       exists (link_state s l0 h i). eexists. split.
       * unfold link_state. destruct (tail_ptr l0 false h) as [isn p]. reflexivity.
-      * split; [exact W'|]. split; [exact Hids|]. split; [intros x Hx; apply Hon; left; exact Hx|]. split; assumption.
+      * split; [exact W'|]. split; [exact Hids|]. split; [intros x Hx; apply Hon; left; exact Hx|]. split; [assumption|]. split; [assumption|].
+        split; [reflexivity|]. intros _. apply Hon. right. reflexivity.
 Qed.
 
 Lemma fill_records_onfly : forall recs s cnt i, WF s -> 0 <= i -> i + lenZ recs <= MAXU ->
   (forall k id, nth_error recs k = Some id -> cstr_eq id (idf s (i + Z.of_nat k)) = true) ->
   exists s', fill_records s cnt i recs true = Ok s' /\ WF s' /\ (forall x, idf s' x = idf s x) /\
-    (forall x, on_chain s x -> on_chain s' x) /\ number s' = number s /\ loaded s' = loaded s.
+    (forall x, on_chain s x -> on_chain s' x) /\ number s' = number s /\ loaded s' = loaded s /\
+    (forall k id, nth_error recs k = Some id -> nth k (filed cnt recs) false = true -> on_chain s' (i + Z.of_nat k)).
 Proof.
-  induction recs as [|id r IH]; intros s cnt i W Hi Hlen Hag; cbn [fill_records].
-  - exists s. auto 6.
+  induction recs as [|id r IH]; intros s cnt i W Hi Hlen Hag; cbn [fill_records filed].
+  - exists s. repeat split; auto. intros [|k] id0 E; discriminate.
   - rewrite lenZ_cons in Hlen. assert (Hl0 : 0 <= lenZ r) by (unfold lenZ; lia).
     assert (Hr : in_range i = true) by (apply in_range_spec; lia).
     pose proof (Hag 0%nat id eq_refl) as H0. cbn in H0. rewrite Z.add_0_r in H0.
-    destruct (userec_add_onfly s cnt i id W Hr H0) as [s1 [cnt1 [E [W1 [Hid1 [Hon1 [Hn1 Hl1]]]]]]]. rewrite E.
-    destruct (IH s1 cnt1 (i + 1) W1) as [s' [E' [W' [Hid' [Hon' [Hn' Hl']]]]]]; [lia|lia| |].
+    destruct (userec_add_onfly s cnt i id W Hr H0) as [s1 [cnt1 [E [W1 [Hid1 [Hon1 [Hn1 [Hl1 [Ec1 Hf1]]]]]]]]]. rewrite E. subst cnt1.
+    destruct (IH s1 (cnt_after cnt id) (i + 1) W1) as [s' [E' [W' [Hid' [Hon' [Hn' [Hl' Hf']]]]]]]; [lia|lia| |].
     + intros k id' Hk. rewrite Hid1. replace (i + 1 + Z.of_nat k) with (i + Z.of_nat (S k)) by lia. apply Hag. exact Hk.
     + exists s'. split; [exact E'|]. split; [exact W'|]. split; [intros x; rewrite Hid'; apply Hid1|].
-      split; [intros x Hx; apply Hon'; apply Hon1; exact Hx|]. split; congruence.
+      split; [intros x Hx; apply Hon'; apply Hon1; exact Hx|]. split; [congruence|]. split; [congruence|].
+      intros [|k] id0 Ek Hf; cbn [nth_error] in Ek; cbn [nth] in Hf.
+      * rewrite Z.add_0_r. apply Hon'. apply Hf1. destruct (skips cnt id); [discriminate|reflexivity].
+      * replace (i + Z.of_nat (S k)) with (i + 1 + Z.of_nat k) by lia. apply (Hf' k id0 Ek Hf).
 Qed.
 
 (* .PASSWDS agrees with the live table: record i carries (as a C string) the id the segment holds for slot i *)
@@ -567,12 +658,14 @@ Definition agrees (s : st) (recs : list (list Z)) : Prop :=
 
 Lemma fill_onfly_wf s recs : WF s -> lenZ recs <= MAXU -> agrees s recs ->
   exists s1, fill_uhash s recs true = Ok s1 /\ WF s1 /\ (forall x, idf s1 x = idf s x) /\
-    (forall x, on_chain s x -> on_chain s1 x) /\ number s1 = lenZ recs /\ loaded s1 = loaded s.
+    (forall x, on_chain s x -> on_chain s1 x) /\ number s1 = lenZ recs /\ loaded s1 = loaded s /\
+    (forall k id, nth_error recs k = Some id -> nth k (filed 0 recs) false = true -> on_chain s1 (Z.of_nat k)).
 Proof.
   intros W Hlen Hag. unfold fill_uhash, init_fill.
   rewrite (check_from_wf s W); [|lia|pose proof HASHN_pos; rewrite Z2Nat.id; lia].
-  destruct (fill_records_onfly recs s 0 0 W (Z.le_refl 0)) as [s1 [E [W1 [Hid [Hon [Hn Hl]]]]]]; [lia|exact Hag|].
-  rewrite E. eexists. split; [reflexivity|]. split; [exact W1|]. split; [exact Hid|]. split; [exact Hon|]. split; [reflexivity|exact Hl].
+  destruct (fill_records_onfly recs s 0 0 W (Z.le_refl 0)) as [s1 [E [W1 [Hid [Hon [Hn [Hl Hf]]]]]]]; [lia|exact Hag|].
+  rewrite E. eexists. split; [reflexivity|]. split; [exact W1|]. split; [exact Hid|]. split; [exact Hon|]. split; [reflexivity|]. split; [exact Hl|].
+  intros k id Ek Hk. apply (Hf k id Ek Hk).
 Qed.
 
 (* LoadUHash on a WF state from an agreeing file: whichever branch the Number/Loaded test takes *)
@@ -591,6 +684,19 @@ Proof.
   intros W Hl Hlen Hag. unfold load_uhash. destruct (Z.eqb_spec (loaded s) 0); [contradiction|]. rewrite andb_false_r.
   destruct (fill_onfly_wf s recs W Hlen Hag) as [s1 [E [W1 [Hid [Hon _]]]]]. exists s1. auto.
 Qed.
+
+(* ... and every record with a valid id is on a chain afterwards - also one that was on none before (removed, or left out by an earlier load) - however many
+   free records precede it in the file; its slot holds the record's id as a C string *)
+Lemma reload_indexes_users s recs : WF s -> loaded s <> 0 -> lenZ recs <= MAXU -> agrees s recs ->
+  exists s', load_uhash s recs = Ok s' /\ WF s' /\ (forall x, idf s' x = idf s x) /\ (forall x, on_chain s x -> on_chain s' x) /\
+    (forall k id, nth_error recs k = Some id -> is_valid_id id = true -> on_chain s' (Z.of_nat k) /\ cstr_eq id (idf s' (Z.of_nat k)) = true).
+Proof.
+  intros W Hl Hlen Hag. unfold load_uhash. destruct (Z.eqb_spec (loaded s) 0); [contradiction|]. rewrite andb_false_r.
+  destruct (fill_onfly_wf s recs W Hlen Hag) as [s1 [E [W1 [Hid [Hon [_ [_ Hf]]]]]]]. exists s1.
+  split; [exact E|]. split; [exact W1|]. split; [exact Hid|]. split; [exact Hon|].
+  intros k id Ek Hv. split; [apply (Hf k id Ek); eapply filed_valid; eassumption|]. rewrite Hid. apply (Hag k id Ek).
+Qed.
+
 
 (* ------------------------------------------------------------------ every history *)
 Inductive reachable : st -> Prop :=
@@ -636,14 +742,14 @@ Qed.
 
 (* ------------------------------------------------------------------ attach *)
 Lemma attach_same g v : attach g = Attached v ->
-  seg_version g = cache.SHM_VERSION /\ seg_size g = cache.SHM_RAW_SZ /\ v = seg_body g /\
+  seg_version g = SHMVER /\ seg_size g = SHMSZ /\ v = seg_body g /\
   (forall q, search_user_raw v q = search_user_raw (seg_body g) q).
 Proof.
-  unfold attach. destruct (Z.eqb_spec (seg_version g) cache.SHM_VERSION); [|discriminate].
-  destruct (Z.eqb_spec (seg_size g) cache.SHM_RAW_SZ); [|discriminate]. cbn [negb].
+  unfold attach. destruct (Z.eqb_spec (seg_version g) SHMVER); [|discriminate].
+  destruct (Z.eqb_spec (seg_size g) SHMSZ); [|discriminate]. cbn [negb].
   intros E. inversion E; subst. auto.
 Qed.
-Lemma attach_refused g : seg_version g <> cache.SHM_VERSION \/ seg_size g <> cache.SHM_RAW_SZ -> forall v, attach g <> Attached v.
+Lemma attach_refused g : seg_version g <> SHMVER \/ seg_size g <> SHMSZ -> forall v, attach g <> Attached v.
 Proof.
   intros H v E. apply attach_same in E. destruct E as [E1 [E2 _]]. destruct H; contradiction.
 Qed.
@@ -685,28 +791,33 @@ Proof. destruct s as [h n i nb ld]. cbn [number loaded unload head next ids]. in
 Lemma load_any_process (p : proc) s recs : lenZ recs <= MAXU ->
   (number s = 0 -> loaded s = 0 ->
      exists s', load_uhash_by p s recs = Ok s' /\ WF s' /\ number s' = lenZ recs /\ loaded s' = 1 /\ (forall q, exists v, search_user_raw s' q = Ok v) /\
-       (forall k id, nth_error recs k = Some id -> idf s' (Z.of_nat k) = id) /\ (forall x, on_chain s' x <-> 0 <= x < lenZ recs)) /\
+       (forall k id, nth_error recs k = Some id -> is_valid_id id = true -> idf s' (Z.of_nat k) = id /\ on_chain s' (Z.of_nat k)) /\
+       (lenZ recs <= PREALLOC ->
+          (forall k id, nth_error recs k = Some id -> idf s' (Z.of_nat k) = id) /\ (forall x, on_chain s' x <-> 0 <= x < lenZ recs))) /\
   (WF s -> agrees s recs ->
      exists s', load_uhash_by p s recs = Ok s' /\ WF s' /\ number s' = lenZ recs /\ (forall q, exists v, search_user_raw s' q = Ok v)).
 Proof.
   intros Hlen. unfold load_uhash_by. split.
-  - intros Hn Hl. destruct (cold_load_exact s recs Hlen) as [s' [E [W' [Hn' [Hl' [Hids [_ Hon]]]]]]]. rewrite (unload_same s Hn Hl) in E.
-    exists s'. split; [exact E|]. split; [exact W'|]. split; [exact Hn'|]. split; [exact Hl'|].
-    split; [|split; [exact Hids|exact Hon]].
-    intros q. destruct (search_total s' q W') as [v [Ev _]]. exists v. exact Ev.
+  - intros Hn Hl. destruct (cold_load_general s recs Hlen) as [s' [E [W' [Hn' [Hl' [_ [Hval _]]]]]]].
+    exists s'. split; [rewrite (unload_same s Hn Hl) in E; exact E|]. split; [exact W'|]. split; [exact Hn'|]. split; [exact Hl'|].
+    split; [|split; [exact Hval|]].
+    + intros q. destruct (search_total s' q W') as [v [Ev _]]. exists v. exact Ev.
+    + intros Hcap. destruct (cold_load_exact s recs Hlen Hcap) as [s'' [E'' [_ [_ [_ [Hids [_ Hon]]]]]]].
+      rewrite E in E''. inversion E''; subst s''. split; [exact Hids|exact Hon].
   - intros W Hag. destruct (reload_wf s recs W Hlen Hag) as [s' [E [W' Hn']]].
     exists s'. split; [exact E|]. split; [exact W'|]. split; [exact Hn'|].
     intros q. destruct (search_total s' q W') as [v [Ev _]]. exists v. exact Ev.
 Qed.
 
-Lemma attach_ok_header b : attach (mkseg cache.SHM_VERSION cache.SHM_RAW_SZ b) = Attached b.
+Lemma attach_ok_header b : attach (mkseg SHMVER SHMSZ b) = Attached b.
 Proof. unfold attach. cbn [seg_version seg_size seg_body]. rewrite !Z.eqb_refl. reflexivity. Qed.
 
 Lemma reset_not_wf : ~ WF reset_st.
 Proof.
   intros W. destruct (W 0) as [l [Hc [Hnd Hx]]]; [unfold hash_ok; pose proof HASHN_pos; lia|].
   unfold hd, reset_st in Hc. cbn [head] in Hc. rewrite tget_tconst in Hc. inversion Hc as [|p l' Hp Hc' E1 E2]; subst.
-  destruct (Hx 0 (or_introl eq_refl)) as [_ Hh]. vm_compute in Hh. discriminate.
+  destruct (Hx 0 (or_introl eq_refl)) as [_ Hh]. unfold idf, reset_st in Hh. cbn [ids] in Hh. rewrite tget_tconst in Hh.
+  change (uhash EMPTY_ID) with (cmsys.FNV1_32_INIT mod HASHN) in Hh. exact (empty_hash_nonzero HK Hh).
 Qed.
 
 (* the start-up interleaving / crash point: process 1 creates the segment (zeroed, header written) and has not loaded it;
@@ -717,7 +828,9 @@ Lemma second_process_loads_created_segment (is_create : bool) recs : lenZ recs <
     p_is_new p2 = false /\ v = reset_st /\ ~ WF v /\
     exists s', load_uhash_by p2 v recs = Ok s' /\ WF s' /\ number s' = lenZ recs /\ loaded s' = 1 /\
       (forall q, exists u, search_user_raw s' q = Ok u) /\
-      (forall k id, nth_error recs k = Some id -> idf s' (Z.of_nat k) = id) /\ (forall x, on_chain s' x <-> 0 <= x < lenZ recs).
+      (forall k id, nth_error recs k = Some id -> is_valid_id id = true -> idf s' (Z.of_nat k) = id /\ on_chain s' (Z.of_nat k)) /\
+      (lenZ recs <= PREALLOC ->
+         (forall k id, nth_error recs k = Some id -> idf s' (Z.of_nat k) = id) /\ (forall x, on_chain s' x <-> 0 <= x < lenZ recs)).
 Proof.
   intros Hlen. exists (mkproc false), reset_st. unfold new_shm_existing, new_shm_create. cbn [fst snd].
   rewrite attach_ok_header. split; [reflexivity|]. split; [reflexivity|]. split; [reflexivity|]. split; [reflexivity|].
@@ -732,7 +845,7 @@ Lemma check_walk_self_loop h : forall fuel s, tget (next s) 0 = 0 -> uhash (tget
   check_walk fuel s h false h 0 = Hang.
 Proof.
   induction fuel as [|f IH]; intros s Hnx Hh; [reflexivity|].
-  cbn [check_walk]. change (0 =? -1) with false. change ((0 <? -1) || (MAXU <=? 0)) with false. cbv iota.
+  cbn [check_walk]. change (0 =? -1) with false. replace (MAXU <=? 0) with false by (symmetry; apply Z.leb_gt; exact MAXU_pos). change ((0 <? -1) || false) with false. cbv iota.
   destruct (Z.eqb_spec (uhash (tget (ids s) 0)) h) as [E|_]; [contradiction|]. cbn [negb]. cbv zeta. rewrite Hnx.
   apply IH; cbn [set_link set_head next ids]; assumption.
 Qed.
@@ -742,7 +855,7 @@ Lemma onfly_on_created_segment_hangs :
   (forall recs, fill_uhash reset_st recs true = Hang).
 Proof.
   assert (Hnx : tget (next reset_st) 0 = 0) by (unfold reset_st; cbn [next]; apply tget_tconst).
-  assert (Hh : uhash (tget (ids reset_st) 0) <> 0) by (unfold reset_st; cbn [ids]; rewrite tget_tconst; vm_compute; discriminate).
+  assert (Hh : uhash (tget (ids reset_st) 0) <> 0) by (unfold reset_st; cbn [ids]; rewrite tget_tconst; exact (empty_hash_nonzero HK)).
   assert (Hhd : tget (head reset_st) 0 = 0) by (unfold reset_st; cbn [head]; apply tget_tconst).
   split.
   - intros fuel. rewrite Hhd. apply check_walk_self_loop; assumption.
@@ -795,6 +908,120 @@ Proof. exact (id_eq_ci_spec a b). Qed.
 Lemma match_same_length a b : id_eq_ci a b = true -> length (cprefix a) = length (cprefix b).
 Proof. intros H. apply match_whole_id in H. apply (f_equal (@length Z)) in H. rewrite !map_length in H. exact H. Qed.
 
+(* a valid id is not empty, so neither is a query that matches it *)
+Lemma valid_nonempty id : is_valid_id id = true -> cprefix id <> [].
+Proof.
+  unfold is_valid_id. intros H E. rewrite E in H. cbn in H. discriminate.
+Qed.
+Lemma cprefix_nonempty_first q : cprefix q <> [] -> nth 0 q 0 <> 0.
+Proof. destruct q as [|c r]; cbn [cprefix nth]; [congruence|]. destruct (Z.eqb_spec c 0); congruence. Qed.
+
+(* the guarantee of a cold load in terms of lookups, for ANY constants: a user of the file - a record with a valid id that no other record carries in any
+   letter case - is found in every letter case at its slot, wherever it is in the file and however many free records precede it *)
+Lemma cold_load_finds_users s0 recs : lenZ recs <= MAXU ->
+  exists s', load_uhash (unload s0) recs = Ok s' /\ WF s' /\
+    forall k id q, nth_error recs k = Some id -> is_valid_id id = true ->
+      (forall j id', nth_error recs j = Some id' -> id_eq_ci id' id = true -> j = k) ->
+      id_eq_ci q id = true -> search_user_raw s' q = Ok (Z.of_nat k + 1).
+Proof.
+  intros Hlen. destruct (cold_load_general s0 recs Hlen) as [s' [E [W [_ [_ [Hf [Hval [Hon _]]]]]]]].
+  exists s'. split; [exact E|]. split; [exact W|].
+  intros k id q Ek Hv Huniq Hq. destruct (Hval k id Ek Hv) as [Hid Hk].
+  rewrite search_user_raw_nonempty.
+  - apply search_complete; [exact W|exact Hk| |rewrite Hid; exact Hq].
+    intros y Hy Hyk. destruct (Hon y Hy) as [j [-> [Hj Hfj]]].
+    destruct (nth_error recs j) as [id'|] eqn:Ej; [|apply nth_error_None in Ej; lia].
+    destruct (Hf j id' Ej Hfj) as [Hidj _]. rewrite Hidj, Hid in Hyk. rewrite (Huniq j id' Ej Hyk). reflexivity.
+  - apply cprefix_nonempty_first. pose proof (match_same_length q id Hq) as Hl. pose proof (valid_nonempty id Hv) as Hne.
+    intros Eq. rewrite Eq in Hl. destruct (cprefix id); [congruence|discriminate].
+Qed.
+
+
+(* ------------------------------------------------------------------ C-string semantics: the bytes behind the terminator *)
+(* an id is the bytes before its first NUL; what the rest of the USER_ID_SZ-byte array holds (leftovers of a longer id the buffer held before) takes part in
+   nothing: not in the comparison, not in the hash, hence not in any lookup - neither on the side of the query nor on the side of the stored id *)
+Lemma id_eq_ci_cprefix a a' b b' : cprefix a = cprefix a' -> cprefix b = cprefix b' -> id_eq_ci a b = id_eq_ci a' b'.
+Proof. intros E1 E2. unfold id_eq_ci. rewrite E1, E2. reflexivity. Qed.
+Lemma uhash_cprefix a a' : cprefix a = cprefix a' -> uhash a = uhash a'.
+Proof. intros E. apply id_eq_ci_hash. rewrite (id_eq_ci_cprefix a a' a' a' E eq_refl). apply id_eq_ci_refl. Qed.
+Lemma search_walk_cprefix s q q' : cprefix q = cprefix q' -> forall fuel p, search_walk fuel s q p = search_walk fuel s q' p.
+Proof.
+  intros E. induction fuel as [|f IH]; intros p; cbn [search_walk]; [reflexivity|].
+  rewrite (id_eq_ci_cprefix q q' _ _ E eq_refl). rewrite IH. reflexivity.
+Qed.
+Lemma search_ignores_bytes_after_nul s q q' : cprefix q = cprefix q' ->
+  do_search_user_raw s q = do_search_user_raw s q' /\ search_user_raw s q = search_user_raw s q' /\ uhash q = uhash q' /\
+  (forall b, id_eq_ci q b = id_eq_ci q' b) /\ (forall b, id_eq_ci b q = id_eq_ci b q').
+Proof.
+  intros E.
+  assert (D : do_search_user_raw s q = do_search_user_raw s q').
+  { unfold do_search_user_raw. rewrite (uhash_cprefix q q' E). apply search_walk_cprefix. exact E. }
+  split; [exact D|]. split; [|split; [apply uhash_cprefix; exact E|split; intros b; apply id_eq_ci_cprefix; auto]].
+  unfold search_user_raw. rewrite D.
+  replace (nth 0 q' 0 =? 0) with (nth 0 q 0 =? 0); [reflexivity|].
+  clear D. destruct q as [|c r], q' as [|c' r']; cbn [nth cprefix] in *; try reflexivity;
+    repeat match goal with |- context [?a =? 0] => destruct (Z.eqb_spec a 0) | H : context [?a =? 0] |- _ => destruct (Z.eqb_spec a 0) end;
+    try reflexivity; try discriminate; try (inversion E; subst; contradiction); try congruence.
+Qed.
+(* a slot whose array holds leftovers is found by the clean spelling and by every other dirty one: stated through search_complete with the stored id as it is *)
+Lemma search_finds_dirty_slot s x q : WF s -> on_chain s x -> unique_ci s x -> map tolower (cprefix q) = map tolower (cprefix (idf s x)) ->
+  do_search_user_raw s q = Ok (x + 1).
+Proof. intros W Hx Hu E. apply search_complete; auto. apply id_eq_ci_spec. exact E. Qed.
+
+End Cfg.
+
+(* ------------------------------------------------------------------ the two configurations of the repository *)
+Lemma K_default_ok : consts_ok K_default.
+Proof. split; [reflexivity|]. split; [vm_compute; discriminate|]. split; [vm_compute; discriminate|]. split; reflexivity. Qed.
+(* -tags docker: MAX_USERS = 2 000 000 *)
+Lemma K_docker_ok : consts_ok K_docker.
+Proof. split; [reflexivity|]. split; [vm_compute; discriminate|]. split; [vm_compute; discriminate|]. split; reflexivity. Qed.
+(* what distinguishes them for this property: the default table is smaller than the cap on free records and than the number of buckets, the production table
+   is larger than both; the id size, IDLEN, the hash and the cap are the same *)
+Lemma consts_shared :
+  @MAXU K_default <= @PREALLOC K_default /\ @MAXU K_default < @HASHN K_default /\
+  @PREALLOC K_docker + @HASHN K_docker < @MAXU K_docker /\
+  @PREALLOC K_docker = @PREALLOC K_default /\ @HASHBITS K_docker = @HASHBITS K_default /\
+  Gen.Consts_docker.ptttype.USER_ID_SZ = ptttype.USER_ID_SZ /\ Gen.Consts_docker.ptttype.IDLEN = ptttype.IDLEN /\
+  Gen.Consts_docker.cmsys.FNV1_32_INIT = cmsys.FNV1_32_INIT /\ Gen.Consts_docker.cmsys.FNV_32_PRIME = cmsys.FNV_32_PRIME.
+Proof. vm_compute. repeat split; try reflexivity; discriminate. Qed.
+
+Local Existing Instance K_default.
+
+(* ------------------------------------------------------------------ the default build: MAX_USERS <= PRE_ALLOCATED_USERS, the cap never bites *)
+Lemma default_cap (recs : list (list Z)) : lenZ recs <= MAXU -> lenZ recs <= PREALLOC.
+Proof. intros H. pose proof (proj1 consts_shared) as C. lia. Qed.
+
+Lemma cold_load_exact_default s0 recs : lenZ recs <= MAXU ->
+  exists s', load_uhash (unload s0) recs = Ok s' /\ WF s' /\ number s' = lenZ recs /\ loaded s' = 1 /\
+    (forall k id, nth_error recs k = Some id -> idf s' (Z.of_nat k) = id) /\
+    (forall x, ~ (0 <= x < lenZ recs) -> idf s' x = idf s0 x) /\
+    (forall x, on_chain s' x <-> 0 <= x < lenZ recs).
+Proof. intros H. exact (cold_load_exact K_default_ok s0 recs H (default_cap recs H)). Qed.
+
+Lemma load_any_process_default (p : proc) s recs : lenZ recs <= MAXU ->
+  (number s = 0 -> loaded s = 0 ->
+     exists s', load_uhash_by p s recs = Ok s' /\ WF s' /\ number s' = lenZ recs /\ loaded s' = 1 /\ (forall q, exists v, search_user_raw s' q = Ok v) /\
+       (forall k id, nth_error recs k = Some id -> idf s' (Z.of_nat k) = id) /\ (forall x, on_chain s' x <-> 0 <= x < lenZ recs)) /\
+  (WF s -> agrees s recs ->
+     exists s', load_uhash_by p s recs = Ok s' /\ WF s' /\ number s' = lenZ recs /\ (forall q, exists v, search_user_raw s' q = Ok v)).
+Proof.
+  intros H. destruct (load_any_process K_default_ok p s recs H) as [H1 H2]. split; [|exact H2].
+  intros Hn Hl. destruct (H1 Hn Hl) as [s' [E [W [Hn' [Hl' [Hq [_ Hex]]]]]]]. destruct (Hex (default_cap recs H)) as [Hids Hon].
+  exists s'. auto 10.
+Qed.
+
+Lemma second_process_loads_created_segment_default (is_create : bool) recs : lenZ recs <= MAXU ->
+  exists p2 v, new_shm_existing is_create (snd new_shm_create) = (p2, Attached v) /\ p_is_new (fst new_shm_create) = true /\
+    p_is_new p2 = false /\ v = reset_st /\ ~ WF v /\
+    exists s', load_uhash_by p2 v recs = Ok s' /\ WF s' /\ number s' = lenZ recs /\ loaded s' = 1 /\
+      (forall q, exists u, search_user_raw s' q = Ok u) /\
+      (forall k id, nth_error recs k = Some id -> idf s' (Z.of_nat k) = id) /\ (forall x, on_chain s' x <-> 0 <= x < lenZ recs).
+Proof.
+  intros H. destruct (second_process_loads_created_segment K_default_ok is_create recs H) as [p2 [v [A [B [C [D [E [s' [F [W [Hn' [Hl' [Hq [_ Hex]]]]]]]]]]]]]].
+  destruct (Hex (default_cap recs H)) as [Hids Hon]. exists p2, v. repeat (split; [assumption|]). exists s'. auto 10.
+Qed.
+
 (* ------------------------------------------------------------------ non-vacuity *)
 Definition ex_id (l : list Z) : list Z := fixlen IDSZ l.
 Definition ex_recs : list (list Z) := [ex_id [83; 89; 83; 79; 80]; ex_id [97; 108]; ex_id []; ex_id [66; 111; 98]].   (* SYSOP al "" Bob *)
@@ -828,19 +1055,19 @@ Proof. vm_compute. repeat split; reflexivity. Qed.
 
 Example ex_reachable : exists s, reachable s /\ on_chain s 0 /\ idf s 0 = ex_id [90; 101; 100] /\ WF s.
 Proof.
-  destruct (cold_load_wf reset_st ex_recs) as [s1 [E1 [W1 _]]]; [vm_compute; discriminate|].
+  destruct (cold_load_wf K_default_ok reset_st ex_recs) as [s1 [E1 [W1 _]]]; [vm_compute; discriminate|].
   assert (R1 : reachable s1) by (eapply r_cold; [|exact E1]; vm_compute; discriminate).
   assert (Hr : in_range 0 = true) by reflexivity.
-  destruct (remove_wf s1 0 W1 Hr) as [s2 [E2 [W2 [_ [Hon2 _]]]]].
+  destruct (remove_wf K_default_ok s1 0 W1 Hr) as [s2 [E2 [W2 [_ [Hon2 _]]]]].
   assert (R2 : reachable s2) by (eapply r_remove; eauto).
   assert (Hfree : ~ on_chain s2 0) by (intros Hx; apply Hon2 in Hx; destruct Hx as [_ Hx]; congruence).
-  destruct (add_wf s2 0 (ex_id [90; 101; 100]) W2 Hr Hfree) as [s3 [E3 [W3 [Hid [_ [Hon3 _]]]]]].
+  destruct (add_wf K_default_ok s2 0 (ex_id [90; 101; 100]) W2 Hr Hfree) as [s3 [E3 [W3 [Hid [_ [Hon3 _]]]]]].
   exists s3. split; [eapply r_add; eauto|]. split; [apply Hon3; right; reflexivity|]. split; [exact Hid|exact W3].
 Qed.
 
 (* a state that is NOT well-formed exists (the zeroed segment: every head points at slot 0, whose id hashes elsewhere), so WF is not vacuous *)
 Example ex_reset_not_wf : ~ WF reset_st.
-Proof. exact reset_not_wf. Qed.
+Proof. exact (reset_not_wf K_default_ok). Qed.
 
 (* the created-but-not-loaded segment loaded by a second process (IsNew = false): lookups in any letter case find the file's ids;
    then the creator reloads on the fly and a third view answers the same *)
@@ -863,14 +1090,14 @@ Proof. vm_compute. repeat split; reflexivity. Qed.
 
 Example ex_reachable_mp : exists s, reachable_mp s /\ on_chain s 0.
 Proof.
-  destruct (load_any_process (mkproc false) reset_st ex_recs) as [H _]; [vm_compute; discriminate|].
+  destruct (load_any_process K_default_ok (mkproc false) reset_st ex_recs) as [H _]; [vm_compute; discriminate|].
   destruct (H eq_refl eq_refl) as [s1 [E1 [W1 _]]].
   assert (R1 : reachable_mp s1) by (eapply (m_cold (mkproc false) reset_st ex_recs); [vm_compute; discriminate|reflexivity|reflexivity|exact E1]).
   assert (Hr : in_range 0 = true) by reflexivity.
-  destruct (remove_wf s1 0 W1 Hr) as [s2 [E2 [W2 [_ [Hon2 _]]]]].
+  destruct (remove_wf K_default_ok s1 0 W1 Hr) as [s2 [E2 [W2 [_ [Hon2 _]]]]].
   assert (R2 : reachable_mp s2) by (eapply (m_remove creator); eauto).
   assert (Hfree : ~ on_chain s2 0) by (intros Hx; apply Hon2 in Hx; destruct Hx as [_ Hx]; congruence).
-  destruct (add_wf s2 0 (ex_id [90; 101; 100]) W2 Hr Hfree) as [s3 [E3 [W3 [Hid [_ [Hon3 _]]]]]].
+  destruct (add_wf K_default_ok s2 0 (ex_id [90; 101; 100]) W2 Hr Hfree) as [s3 [E3 [W3 [Hid [_ [Hon3 _]]]]]].
   exists s3. split; [eapply (m_add (mkproc false)); eauto|]. apply Hon3; right; reflexivity.
 Qed.
 
@@ -898,6 +1125,36 @@ Example ex_prefix_pair :
   match load_uhash (unload reset_st) [ex_id [116; 117; 49]; ex_id []; ex_id []] with
   | Ok s1 => uhash (ex_id [116; 117; 49]) = uhash (ex_id []) /\ obs_chain s1 (uhash (ex_id [])) = [uhash (ex_id []); 3; 0; 1; 2; -1] /\
              do_search_user_raw s1 (ex_id []) = Ok 2 /\ search_user_raw s1 (ex_id [84; 85; 49]) = Ok 1 /\ search_user_raw s1 (ex_id [116; 117]) = Ok 0
+  | _ => False
+  end.
+Proof. vm_compute. repeat split; reflexivity. Qed.
+
+(* leftovers behind the terminator: slot 1 is set from a buffer that held "LongUserName" before "bob" ("bob\0UserName\0"), slot 2 is loaded from a record
+   "amy\0ongName1\0"; both are found by the clean spelling in any letter case and by a query buffer with other leftovers; the stored bytes are kept as they are *)
+Definition ex_bob_dirty : list Z := [98; 111; 98; 0; 85; 115; 101; 114; 78; 97; 109; 101; 0].
+Definition ex_amy_dirty : list Z := [97; 109; 121; 0; 111; 110; 103; 78; 97; 109; 101; 49; 0].
+Example ex_leftovers :
+  match load_uhash (unload reset_st) [ex_id [83; 89; 83; 79; 80]; ex_id []; ex_amy_dirty] with
+  | Ok s1 =>
+      match set_user_id s1 2 ex_bob_dirty with
+      | Ok (s2, 0) => search_user_raw s2 (ex_id [66; 79; 66]) = Ok 2 /\ search_user_raw s2 ex_bob = Ok 2 /\
+                      search_user_raw s2 [98; 111; 98; 0; 120; 121; 122; 0; 0; 0; 0; 0; 0] = Ok 2 /\
+                      search_user_raw s2 (ex_id [65; 109; 89]) = Ok 3 /\ search_user_raw s2 [97; 109; 121; 0; 0; 0; 0; 0; 0; 0; 0; 0; 255] = Ok 3 /\
+                      search_user_raw s2 (ex_id [98; 111; 98; 85]) = Ok 0 /\ idf s2 1 = ex_bob_dirty /\ idf s2 2 = ex_amy_dirty
+      | _ => False
+      end
+  | _ => False
+  end.
+Proof. vm_compute. repeat split; reflexivity. Qed.
+
+(* the production configuration: 1003 records without an id, then a user. The user is filed (slot 1003, found in any letter case), the free records beyond the
+   PRE_ALLOCATED_USERS-th are not (1000 slots on the empty id's chain), and the cap is really hit: record 1000 is the first one left alone *)
+Example ex_docker_cap :
+  let recs := repeat (ex_id []) 1003 ++ [ex_id [65; 108; 105; 99; 101; 48; 49]] in
+  nth 999 (@filed K_docker 0 recs) false = true /\ nth 1000 (@filed K_docker 0 recs) false = false /\ nth 1003 (@filed K_docker 0 recs) false = true /\
+  match @load_uhash K_docker (unload reset_st) recs with
+  | Ok s1 => @search_user_raw K_docker s1 (ex_id [97; 76; 73; 67; 69; 48; 49]) = Ok 1004 /\
+             nth 1 (@obs_chain K_docker s1 (@uhash K_docker (ex_id []))) 0 = 1000 /\ number s1 = 1004
   | _ => False
   end.
 Proof. vm_compute. repeat split; reflexivity. Qed.
